@@ -50,6 +50,13 @@ REQUIRED = [
     "Pixman.Props.C04.unrepresentable_corner_dropped_partial",
     # S6
     "Pixman.Props.C04.pad_bounds",
+    # S10: NORMAL-repeat split of the scaled-bilinear main loop (regenerated num_pixels bounds bridged to the model)
+    "Pixman.Props.C04.wrapNumPixels_bridge",
+    "Pixman.Props.C04.plainNumPixels_bridge",
+    "Pixman.Props.C04.plain_segment_in_row",
+    "Pixman.Props.C04.wrap_segment_in_buffer",
+    "Pixman.Props.C04.normalStep_safe",
+    "Pixman.Props.C04.normalLoop_safe",
     # S7
     "Pixman.Props.C04.mallocAb_sound",
     "Pixman.Props.C04.mallocAbc_sound",
